@@ -27,6 +27,9 @@ pub struct Pert {
     pub noise: bool,
     /// all commands on one thread (thread-local state survives), as in a long-lived host
     pub same_thread: bool,
+    /// != 0: the files' modification times are dealt out afresh (only when no command of the
+    /// scenario asks for `-m`, where they are input)
+    pub mtime_seed: u64,
 }
 
 #[derive(Clone, Debug)]
@@ -235,7 +238,6 @@ fn gen_pert(r: &mut Rng, nsteps: usize, uses_now: bool, with_m_flag: bool, dir_o
         sim.dir_mode = (*r.pick(&["shuffle", "shuffle", "desc", "natural"])).to_string();
         sim.dir_seed = r.next();
     }
-    let _ = with_m_flag;
     if r.chance(1, 2) {
         let m = 1 + r.below(64) as u32;
         sim.faults = FaultSpec::Random {
@@ -289,11 +291,14 @@ fn gen_pert(r: &mut Rng, nsteps: usize, uses_now: bool, with_m_flag: bool, dir_o
     if r.chance(3, 4) {
         r.shuffle(&mut order);
     }
-    Pert { sim, env, cwd, heap_seed, order, noise: r.chance(1, 3), same_thread: r.chance(1, 2) }
+    let noise = r.chance(1, 3);
+    let same_thread = r.chance(1, 2);
+    let mtime_seed = if !with_m_flag && r.chance(1, 3) { r.next() | 1 } else { 0 };
+    Pert { sim, env, cwd, heap_seed, order, noise, same_thread, mtime_seed }
 }
 
 fn pert_to_json(p: &Pert) -> Value {
-    json!({"sim": serde_json::to_value(&p.sim).unwrap(), "env": p.env, "cwd": p.cwd, "heap_seed": p.heap_seed, "order": p.order, "noise": p.noise, "same_thread": p.same_thread})
+    json!({"sim": serde_json::to_value(&p.sim).unwrap(), "env": p.env, "cwd": p.cwd, "heap_seed": p.heap_seed, "order": p.order, "noise": p.noise, "same_thread": p.same_thread, "mtime_seed": p.mtime_seed})
 }
 fn pert_from_json(v: &Value) -> Option<Pert> {
     Some(Pert {
@@ -304,6 +309,7 @@ fn pert_from_json(v: &Value) -> Option<Pert> {
         order: serde_json::from_value(v.get("order")?.clone()).ok()?,
         noise: v.get("noise")?.as_bool()?,
         same_thread: v.get("same_thread").and_then(|b| b.as_bool()).unwrap_or(false),
+        mtime_seed: v.get("mtime_seed").and_then(|b| b.as_u64()).unwrap_or(0),
     })
 }
 
@@ -414,6 +420,25 @@ impl C05 {
     }
 
     fn run_pert(&self, w: &mut Work, scn: &Scn, p: &Pert) -> ExecOut {
+        // modification times: as generated, or dealt out afresh (a restored backup, a fresh
+        // checkout, a `touch`): not an input unless a command asks for `-m`
+        {
+            let mut times: Vec<i64> = scn.files.iter().map(|f| f.mtime_ns).collect();
+            if p.mtime_seed != 0 {
+                let mut r = Rng::new(p.mtime_seed);
+                r.shuffle(&mut times);
+                if r.chance(1, 3) {
+                    // ... or all alike
+                    let t0 = times.first().copied().unwrap_or(0);
+                    times.iter_mut().for_each(|t| *t = t0);
+                }
+            }
+            for (f, t) in scn.files.iter().zip(times) {
+                if t != 0 && !f.rel.contains(" -> ") {
+                    crate::exec::set_mtime(std::path::Path::new(&w.abs(&f.rel)), t);
+                }
+            }
+        }
         let mut req = w.req();
         req.sim = p.sim.clone();
         req.env = p.env.clone();
@@ -529,6 +554,9 @@ impl C05 {
         if p.heap_seed != 0 {
             d.push("heap");
         }
+        if p.mtime_seed != 0 {
+            d.push("mtimes");
+        }
         if !nsteps_once || p.noise {
             d.push("history");
         }
@@ -591,6 +619,7 @@ impl C05 {
         let _ = try_p!(Pert { env: calm_env(), ..p.clone() });
         let _ = try_p!(Pert { cwd: None, ..p.clone() });
         let _ = try_p!(Pert { heap_seed: 0, ..p.clone() });
+        let _ = try_p!(Pert { mtime_seed: 0, ..p.clone() });
         let _ = try_p!(Pert { sim: SimSpec { entropy_seed: calm.entropy_seed, ..p.sim.clone() }, ..p.clone() });
         // 3b. random fault plan -> explicit script of the events that fired, then drop events
         if let FaultSpec::Random { .. } = p.sim.faults {
@@ -817,7 +846,8 @@ impl Check for C05 {
         let mut seen: BTreeMap<String, ()> = BTreeMap::new();
         for e in 0..k {
             let mut r = Rng::new(derive(seed, "pert", e));
-            let p = gen_pert(&mut r, scn.steps.len(), scn.uses_now, false, dir_ok, if e % 2 == 0 { 5 } else { 2 });
+            let with_m = scn.steps.iter().any(|s| s.argv.iter().any(|a| a == "-m" || a == "--last-modified"));
+            let p = gen_pert(&mut r, scn.steps.len(), scn.uses_now, with_m, dir_ok, if e % 2 == 0 { 5 } else { 2 });
             let o = self.run_pert(w, &scn, &p);
             rep.absorb_exec(&o);
             let diffs = self.compare(&scn, &refs, &p, &o);
